@@ -39,4 +39,12 @@ theorem gen_buffer : 0 ≤ genCfg.bufferNs := by decide
 theorem gen_headerPinned :
     (["Alg", "KeyID", "Typ"].all fun f => Creds.headerPinned.contains f) = true := by decide
 
+/-- The model treats verification as a function of (key, token): `check`,
+    `checkHex`, `Sessions.check`, `timeCheck`, `hs256Verify` take no state.
+    That is the code's behaviour under concurrent use only if the shared
+    `Signer`/`HS256` objects keep no hash state that calls mutate; the MAC must
+    be built per call.  (What concurrent verification actually does is covered
+    by execution — the harness's `conc` stream — not by a theorem.) -/
+theorem gen_verifierStateless : Creds.verifierHoldsHashState = false := by decide
+
 end PubModel.C16
